@@ -141,11 +141,12 @@ def theorems_in(path: Path) -> list[tuple[str, int]]:
     """(fully qualified name, line) of every `theorem` in a Lean file (single top-level namespace)."""
     raw = path.read_text()
     text = strip_comments(raw)
-    ns = _NS.search(text)
-    prefix = ns.group(1) + "." if ns else ""
+    spaces = [(m.start(), m.group(1)) for m in _NS.finditer(text)]
     res = []
     for m in _DECL.finditer(text):
         line = text.count("\n", 0, m.start()) + 1
+        ns = [n for pos, n in spaces if pos < m.start()]
+        prefix = ns[-1] + "." if ns else ""
         res.append((prefix + m.group(1), line))
     return res
 
